@@ -60,19 +60,46 @@ Section C20_order.
     i < List.length req -> ltb leb fmax (nth i req d) = true ->
     nth i out czero = czero.
   Proof. exact (above_is_zero_lemma leb leb_total leb_trans logf spline1 pchip1 tiny
-                  fmin fmax ex inp req fdata out i d). Qed.
+                  (list_eqb leb) fmin fmax ex inp req fdata out i d). Qed.
 
-  (* no coarse option: the value at the j-th in-band required frequency is
-     fdata[j], unchanged, and that frequency IS freq_compute[j] *)
-  Theorem passthrough fmin fmax req fdata out i d :
-    interpolate leb logf spline1 pchip1 tiny fmin fmax None None req fdata = Some out ->
+  (* freq_coarse = freq_required (no coarse option; also every_x_freq = 1 or an
+     input_freq that IS the required list): the value at the j-th in-band required
+     frequency is fdata[j], unchanged, and that frequency IS freq_compute[j] *)
+  Theorem passthrough fmin fmax ex inp req fdata out i d :
+    freq_coarse ex inp req = req ->
+    interpolate leb logf spline1 pchip1 tiny fmin fmax ex inp req fdata = Some out ->
     List.length fdata = List.length (freq_compute leb fmin fmax req) ->
     i < List.length req -> in_band leb fmin fmax (nth i req d) = true ->
     let j := rank (mask_interpolate leb fmin fmax req) i in
     nth i out czero = nth j fdata czero /\
     nth j (freq_compute leb fmin fmax req) d = nth i req d /\
     j < List.length fdata.
-  Proof. exact (passthrough_lemma leb logf spline1 pchip1 tiny fmin fmax req fdata out i d). Qed.
+  Proof. exact (passthrough_lemma leb leb_total logf spline1 pchip1 tiny fmin fmax ex inp req
+                  fdata out i d). Qed.
+
+  (* ... and ONLY then: whenever freq_coarse differs from freq_required (whatever
+     its length) every in-band value is the spline through the computed data,
+     evaluated at that required frequency -- data are never written at a
+     frequency they were not computed for. *)
+  Theorem differing_coarse_is_interpolated fmin fmax ex inp req fdata out i d :
+    list_eqb leb (freq_coarse ex inp req) req = false ->
+    interpolate leb logf spline1 pchip1 tiny fmin fmax ex inp req fdata = Some out ->
+    i < List.length req -> in_band leb fmin fmax (nth i req d) = true ->
+    let fc := freq_compute leb fmin fmax (freq_coarse ex inp req) in
+    nth i out czero = (spline1 (map logf fc) (map fst fdata) (logf (nth i req d)),
+                       spline1 (map logf fc) (map snd fdata) (logf (nth i req d))).
+  Proof. exact (differing_coarse_lemma leb logf spline1 pchip1 tiny fmin fmax ex inp req
+                  fdata out i d). Qed.
+
+  (* the test is equality of the frequency lists (np.array_equal) *)
+  Theorem pass_test_is_equality :
+    (forall x y, leb x y = true -> leb y x = true -> x = y) ->
+    forall a b : list F, list_eqb leb a b = true <-> a = b.
+  Proof.
+    exact (fun anti a b => conj (list_eqb_eq leb anti a b)
+             (fun E => eq_ind a (fun b => list_eqb leb a b = true)
+                         (list_eqb_refl leb leb_total a) b E)).
+  Qed.
 
   (* below fmin: PCHIP through (tiny, Re fdata[0] - tiny j), (freq_compute, fdata) *)
   Theorem extrapolated_is_pchip_of_extended fmin fmax ex inp req fdata out i d d0 rest :
@@ -82,29 +109,32 @@ Section C20_order.
     let fc := freq_compute leb fmin fmax (freq_coarse ex inp req) in
     nth i out czero = (pchip1 (tiny :: fc) (fst d0 :: map fst fdata) (nth i req d),
                        pchip1 (tiny :: fc) ((- tiny)%F :: map snd fdata) (nth i req d)).
-  Proof. exact (extrap_value_lemma leb logf spline1 pchip1 tiny fmin fmax ex inp req fdata
-                  out i d d0 rest). Qed.
+  Proof. exact (extrap_value_lemma leb logf spline1 pchip1 tiny (list_eqb leb) fmin fmax ex inp
+                  req fdata out i d d0 rest). Qed.
 
-  (* Observation (DESIGN section 10): the pass-through branch is selected by the
-     LENGTH of freq_coarse alone.  input_freq with the length of freq_required:
-     ValueError when the in-band counts differ ... *)
-  Theorem same_length_input_freq_raises fmin fmax inp req fdata :
+  (* History (DESIGN section 10): emg3d before "fix: Fourier.interpolate passed data
+     through whenever input_freq had the size of freq_required" selected the
+     pass-through branch by the LENGTH of freq_coarse alone (interpolate_unfixed).
+     input_freq with the length of freq_required: ValueError when the in-band
+     counts differ ... *)
+  Theorem interpolate_unfixed_same_length_raises fmin fmax inp req fdata :
     List.length inp = List.length req ->
-    List.length fdata = List.length (freq_compute leb fmin fmax inp) ->
     List.length fdata <> List.length (freq_interpolate leb fmin fmax req) ->
     List.length fdata <> 1 ->
-    interpolate leb logf spline1 pchip1 tiny fmin fmax None (Some inp) req fdata = None.
-  Proof. exact (same_length_input_error leb logf spline1 pchip1 tiny fmin fmax inp req fdata). Qed.
+    interpolate_unfixed leb logf spline1 pchip1 tiny fmin fmax None (Some inp) req fdata = None.
+  Proof. exact (unfixed_same_length_error leb logf spline1 pchip1 tiny fmin fmax inp req
+                  fdata). Qed.
 
   (* ... and silently misplaced data when they agree: values computed at
-     input_freq are written, uninterpolated, at the in-band REQUIRED frequencies. *)
-  Theorem same_length_input_freq_misplaces fmin fmax inp req fdata out i d :
+     input_freq were written, uninterpolated, at the in-band REQUIRED frequencies. *)
+  Theorem interpolate_unfixed_same_length_misplaces fmin fmax inp req fdata out i d :
     List.length inp = List.length req ->
-    interpolate leb logf spline1 pchip1 tiny fmin fmax None (Some inp) req fdata = Some out ->
+    interpolate_unfixed leb logf spline1 pchip1 tiny fmin fmax None (Some inp) req fdata
+      = Some out ->
     List.length fdata = List.length (freq_interpolate leb fmin fmax req) ->
     i < List.length req -> in_band leb fmin fmax (nth i req d) = true ->
     nth i out czero = nth (rank (mask_interpolate leb fmin fmax req) i) fdata czero.
-  Proof. exact (same_length_input_misplaced leb logf spline1 pchip1 tiny fmin fmax inp req
+  Proof. exact (unfixed_same_length_misplaced leb logf spline1 pchip1 tiny fmin fmax inp req
                   fdata out i d). Qed.
 
   Context {TD : Type}.
@@ -125,9 +155,11 @@ Print Assumptions compute_in_band.
 Print Assumptions coarse_every_is_subset.
 Print Assumptions above_is_zero.
 Print Assumptions passthrough.
+Print Assumptions differing_coarse_is_interpolated.
+Print Assumptions pass_test_is_equality.
 Print Assumptions extrapolated_is_pchip_of_extended.
-Print Assumptions same_length_input_freq_raises.
-Print Assumptions same_length_input_freq_misplaces.
+Print Assumptions interpolate_unfixed_same_length_raises.
+Print Assumptions interpolate_unfixed_same_length_misplaces.
 Print Assumptions freq2time_is_reference_of_filled.
 
 Section C20_pchip.
